@@ -12,6 +12,14 @@ open BtcVerif BtcVerif.Spec BtcVerif.Spec.Script BtcVerif.Model.Script
 def CodesepInsensitive (env : Env) : Prop :=
   ∀ body pk sc ht, env.sigCheck body pk ((0xab : UInt8) :: sc) ht = env.sigCheck body pk sc ht
 
+/-- `RawSignatureHash` returns a digest for every script code of at most 10 000 bytes that tokenises
+    and every hash type byte (it can only raise
+    CScriptInvalidError from its `FindAndDelete`) — true of the real one for a transaction in wire
+    range and a non-negative input index (Props/C06Concrete.lean) -/
+def SigHashOK (c : Ctx) : Prop :=
+  ∀ script ht, script.length ≤ MAX_SCRIPT_SIZE → ht < 256 → (rawIter script).2 = none →
+    ∃ d, c.sigHash script ht = .ok d
+
 /-- like `Sim`, for arms that call `FindAndDelete`: the model may stop with CScriptInvalidError
     where the reference goes on — only when the script has a malformed push further on -/
 def SimT (tailErr : Prop) (code : Bytes) (st : St) (m : M St) (r : Option Ref.State) : Prop :=
@@ -25,9 +33,9 @@ def SimT (tailErr : Prop) (code : Bytes) (st : St) (m : M St) (r : Option Ref.St
   unfold namedErr; cases opcodeName? sop <;> simp [SimT]
 
 /-- `_CheckSig` against `CheckECDSASignature`, on corresponding subscripts -/
-theorem checkSig_sim (c : Ctx) (cap : Captured) (sig pk script' code' : Bytes) (hidx : 0 ≤ c.inIdx)
+theorem checkSig_sim (c : Ctx) (cap : Captured) (sig pk script' code' : Bytes) (hsh : SigHashOK c)
     (hcs : CodesepInsensitive c.env) (hrel : script' = code' ∨ script' = (0xab : UInt8) :: code')
-    (hparse : (rawIter script').2 = none) :
+    (hparse : (rawIter script').2 = none) (hlen : script'.length ≤ MAX_SCRIPT_SIZE) :
     checkSig c cap sig pk script' = .ok (Ref.checkSig c.env sig pk code') := by
   unfold checkSig Ref.checkSig
   have hsc : ∀ body ht, c.env.sigCheck body pk script' ht = c.env.sigCheck body pk code' ht := by
@@ -39,12 +47,10 @@ theorem checkSig_sim (c : Ctx) (cap : Captured) (sig pk script' code' : Bytes) (
   | nil => simp
   | cons x r =>
     have hl : (x :: r).getLast? = some ((x :: r).getLast (by simp)) := List.getLast?_eq_some_getLast (by simp)
-    simp only [List.length_cons, Nat.add_one_ne_zero, if_false, hl, hparse, Option.isSome_none,
-      Bool.false_eq_true]
-    have h1 : ¬ c.inIdx < -(c.nVin : Int) := by omega
-    have h2 : ¬ c.inIdx < -(c.nVout : Int) := by omega
-    simp only [h1, h2, if_false, and_false, hsc]
-    split <;> rfl
+    simp only [List.length_cons, Nat.add_one_ne_zero, if_false, hl]
+    obtain ⟨d, hd⟩ := hsh script' ((x :: r).getLast (by simp)).toNat hlen (UInt8.toNat_lt _) hparse
+    rw [← hsc]
+    simp only [hd, Ctx.env]
 
 /-- the two model subscripts that correspond to the reference's `scriptCode` -/
 theorem subscript_rel (script : Bytes) (pb : Nat) (code b : Bytes) (hb : PushPat b)
@@ -66,9 +72,10 @@ theorem findAndDelete_parses (script b : Bytes) (hb : PushPat b) (h : (rawIter s
 section
 variable (c : Ctx) (fl : Flags) (script pc code : Bytes) (fExec : Bool) (st : St)
 
-theorem arm_checksig (sop : Nat) (hs : sop = 0xac ∨ sop = 0xad) (hidx : 0 ≤ c.inIdx)
+theorem arm_checksig (sop : Nat) (hs : sop = 0xac ∨ sop = 0xad) (hsh : SigHashOK c)
     (hcs : CodesepInsensitive c.env) (hel : ∀ x ∈ st.stack, x.length < 2 ^ 32)
-    (hcode : CodeRel script st.pbegin code) (hnop : st.nOpCount ≤ MAX_OPS_PER_SCRIPT) :
+    (hcode : CodeRel script st.pbegin code) (hnop : st.nOpCount ≤ MAX_OPS_PER_SCRIPT)
+    (hsl : script.length ≤ MAX_SCRIPT_SIZE) :
     SimT ((rawIter (script.drop st.pbegin)).2.isSome) code st (opCheckSig c script sop st)
       (Ref.execOp c.env fl sop pc fExec (toRef st code)) := by
   obtain ⟨s, al, vf, pb, n⟩ := st
@@ -90,8 +97,9 @@ theorem arm_checksig (sop : Nat) (hs : sop = 0xac ∨ sop = 0xad) (hidx : 0 ≤ 
       have hrel := subscript_rel script pb code (Ref.pushEnc b) hpat hcode
       have hparse := findAndDelete_parses (script.drop pb) (Ref.pushEnc b) hpat htl
       have hck := checkSig_sim c (St.cap ⟨a :: b :: rest, al, vf, pb, n⟩) b a
-        (Ref.findAndDelete (script.drop pb) (Ref.pushEnc b)) (Ref.findAndDelete code (Ref.pushEnc b)) hidx hcs
-        hrel hparse
+        (Ref.findAndDelete (script.drop pb) (Ref.pushEnc b)) (Ref.findAndDelete code (Ref.pushEnc b)) hsh hcs
+        hrel hparse (by have := ref_findAndDelete_length_le (script.drop pb) (Ref.pushEnc b)
+                        simp only [List.length_drop] at this; omega)
       cases hres : Ref.checkSig c.env b a (Ref.findAndDelete code (Ref.pushEnc b)) <;>
         rcases hs with rfl | rfl <;>
         simp [opCheckSig, henc, hfad, hck, hres, Ref.execOp, toRef, checkArgs, pyIdx, bind, Except.bind, SimT,
